@@ -27,6 +27,9 @@ fn err_name(e: &ConverterBuilderError) -> &'static str {
         ConverterBuilderError::EmptyBest { .. } => "EmptyBest",
         ConverterBuilderError::EmptySIPrefixes => "EmptySIPrefixes",
         ConverterBuilderError::BestUnitQuantity { .. } => "BestUnitWrongQuantity",
+        // a variant added to the library later: the class of an error is only compared as drift
+        #[allow(unreachable_patterns)]
+        _ => "Other",
     }
 }
 
@@ -173,7 +176,7 @@ pub fn main(args: &[String]) {
         })
         .collect();
     // the default converter equals the one built from the shipped units file
-    let shipped = std::fs::read_to_string("/repo/units.toml").ok().and_then(|t| toml::from_str::<UnitsFile>(&t).ok());
+    let shipped = std::fs::read_to_string(format!("{}/units.toml", std::env::var("COOKLANG_REPO").unwrap_or_else(|_| "/repo".to_string()))).ok().and_then(|t| toml::from_str::<UnitsFile>(&t).ok());
     let same = match shipped {
         Some(f) => guarded(|| Converter::builder().with_units_file(f).and_then(|b| b.finish()).map(|c| c == Converter::default())),
         None => Ok(Ok(false)),
